@@ -19,10 +19,12 @@
  * function does.
  */
 #ifndef VF_CXXW
-#error "compile with -DVF_CXXW=12|14|15|16"
+#error "compile with -DVF_CXXW=12|13|14|15|16"
 #endif
 #if VF_CXXW == 12
 #define VF_PROP "C12"
+#elif VF_CXXW == 13
+#define VF_PROP "C13" /* the fuzzy controller's members only (gain scheduling is C13's clause as well) */
 #elif VF_CXXW == 14
 #define VF_PROP "C14"
 #elif VF_CXXW == 15
@@ -165,8 +167,8 @@ static a_real pos_val(vf_rng *r)
 
 static uint64_t vf_ncases(int tier) { return tier ? 24000 : 1600; }
 
-/* ================================================================== C12 */
-#if VF_CXXW == 12
+/* ================================================================== C12 (and the fuzzy part for C13) */
+#if VF_CXXW == 12 || VF_CXXW == 13
 static void set_limits(a_pid *p, vf_rng *r)
 {
     p->summax = pos_val(r) * 4; p->summin = -pos_val(r) * 4;
@@ -309,12 +311,16 @@ done:
 static void vf_case(uint64_t c, vf_rng *r)
 {
     tw_failed = 0;
+#if VF_CXXW == 13
+    case_fuzzy(c, r);
+#else
     switch (c % 3)
     {
     case 0: case_pid(r); break;
     case 1: case_neuro(r); break;
     default: case_fuzzy(c / 3, r); break;
     }
+#endif
 }
 #endif
 
